@@ -54,7 +54,7 @@ def run(ctx):
     res = Result("model_checking")
     res.rule = ("E1 with run-length scripts: every POST position x every ACME error type (24 + unregistered URN + no type) x run length "
                 "of consecutive error answers (quick {1,2,9,10,11}; thorough 1..12); status codes 400/403/429/500/503; recoverable errors without a Replay-Nonce header; "
-                "non-JSON/empty error bodies at every position; polled objects reaching the awaited status at poll 19..22. "
+                "non-JSON/empty error bodies at every position; conforming bodies under status 300/304/600 at every position; polled objects reaching the awaited status at poll 19..22. "
                 "Oracle on the CA log per logical request.")
     runs = [1, 2, 9, 10, 11] if ctx.quick else list(range(1, 13))
     types = e1.ACME_ERRORS + ["unknownurn", "notype"]
@@ -102,6 +102,12 @@ def run(ctx):
         for a in ["errbody:nonjson:500", "errbody:empty:500", "errbody:nonjson:404", "errbody:empty:400", "errbody:nonjson:429"]:
             q = dict(base)
             q["script"] = [{"kind": kind, "nth": 0, "answer": a}]
+            reqs.append(q)
+    # the conforming answer under a status that is neither 2xx nor 4xx/5xx (and not a redirect the HTTP library follows): non-2xx, no problem document
+    for kind in POST_KINDS:
+        for code in (300, 304, 600):
+            q = dict(base)
+            q["script"] = [{"kind": kind, "nth": 0, "answer": "status:%d" % code}]
             reqs.append(q)
     # polling bounds
     for which in ["authz_pending_polls", "order_ready_polls", "order_valid_polls"]:
